@@ -10,5 +10,6 @@ CONSTANTS
   MaxRO0 = 4
 INIT Init
 NEXT Next
+VIEW View
 INVARIANTS TypeOK SizeFormula NoReadOnlyMembers Monotone Consistency LookbackSuperset
 CHECK_DEADLOCK FALSE
